@@ -5,12 +5,15 @@
                 [Processor.run] on the same pass-through category, rule list
                 (condition language) and token stream;
      - CBubble: the real `Bubble` and [Bubble.bubble_cl];
-     - CCats:   `Token::category()` bits and the generated [category].
+     - CCats:   `Token::category()` bits and the generated [category];
+     - CStage:  the real CommentProcessor / FormatHexPatterns / Align /
+                AddIndentation / RemoveTrailingSpaces and the models of
+                Fmt/Stages.v, token for token.
    S ([spec_case]): the property evaluated on the implementation's own output
      - CFmt:    one run of `yara_x_fmt::Formatter::format` under one option
                 combination. *)
 From Coq Require Import List NArith ZArith Bool.
-From YV Require Import Fmt.Tokens Gen.FmtCats Fmt.Processor Fmt.Bubble.
+From YV Require Import Fmt.Tokens Gen.FmtCats Fmt.Processor Fmt.Bubble Fmt.Stages.
 Import ListNotations.
 
 (* how a run of the real formatter ended *)
@@ -32,7 +35,25 @@ Record fmt_obs := mkFmt {
   f_same_behaviour : bool }.  (* input and output compile alike (same error codes, or same
                                  verdicts and matches on the harness buffers) *)
 
+(* the five stages that are not rule-based, with their parameters *)
+Inductive hstage :=
+| HComments (tab_size : nat)
+| HHex
+| HAlign
+| HIndent (spaces : option nat)      (* None = tabs *)
+| HTrailing.
+
+Definition run_hstage (h : hstage) (ts : list token) : option (list token) :=
+  match h with
+  | HComments tab => comments tab ts
+  | HHex => Some (hex_patterns ts)
+  | HAlign => option_map fst (align ts)
+  | HIndent sp => Some (add_indentation sp ts)
+  | HTrailing => Some (trailing_spaces ts)
+  end.
+
 Inductive case :=
+| CStage (h : hstage) (inp : list token) (res : option (list token))
 | CProc (pt : N) (rules : list (cexpr * action)) (inp : list token) (limit : nat)
         (res : option (list token * bool))
 | CBubble (air water : tclass) (inp : list token) (res : option (list token))
@@ -59,6 +80,12 @@ Definition check_case (c : case) : bool :=
   | CProc pt rules inp limit res => check_proc pt rules inp limit res
   | CBubble air water inp res =>
       match bubble_cl air water inp, res with
+      | Some a, Some b => tokens_eqb a b
+      | None, None => true
+      | _, _ => false
+      end
+  | CStage h inp res =>
+      match run_hstage h inp, res with
       | Some a, Some b => tokens_eqb a b
       | None, None => true
       | _, _ => false
